@@ -9,8 +9,9 @@ import (
 
 func init() {
 	register(&Check{
-		ID:    "C08",
-		Level: "exploration",
+		ID:        "C08",
+		DeepQuick: true,
+		Level:     "exploration",
 		Rule: "every (value, target type) pair: values = known values of each source type of the structural core (nulls at every depth) plus every one-position weakening to a refined unknown and marked variants; " +
 			"targets = unrelated types plus every type derived from the source type by kind changes (list/set/tuple, map/object), element conversions, dropped / added / optional attributes and subtrees replaced by the dynamic placeholder; " +
 			"Convert, GetConversion and GetConversionUnsafe are all exercised; distinct by value GoString and target canonical string; non-trivial = source type differs from target type",
